@@ -29,9 +29,12 @@ Hier3 == { h \in { <<a, b, c>> : a \in ClassesAt(1), b \in ClassesAt(2), c \in C
 Hier4(dummy) ==   \* diamonds: class 4 derives from 2 and 3 (in either order), which derive from 1
   { h \in { <<a, b, c, d>> : a \in ClassesAt(1), b \in { x \in ClassesAt(2) : x.bases = <<1>> }, c \in { x \in ClassesAt(3) : x.bases \in { <<1>>, <<2>> } },
                              d \in { x \in ClassesAt(4) : x.bases \in { <<2, 3>>, <<3, 2>> } /\ x.pub } } : Interesting(h) }
+(* decoy: the module also contains, *before* the hierarchy, an unrelated class with a nested class that has the same simple name as the
+   private class 1 (with methods of its own).  It is no ancestor of anything, so it changes no expected fact. *)
 Universe(tier) ==
-  { [h |-> h, split |-> s] : h \in Hier3, s \in BOOLEAN }
-  \cup { [h |-> h, split |-> FALSE] : h \in (IF tier = "quick" THEN { x \in Hier4(0) : x[1].ms = {"m1"} /\ x[4].ms = {} } ELSE Hier4(0)) }
+  { [h |-> h, split |-> s, decoy |-> FALSE] : h \in Hier3, s \in BOOLEAN }
+  \cup { [h |-> h, split |-> FALSE, decoy |-> TRUE] : h \in { x \in Hier3 : ~x[1].pub /\ x[1].ms # {} } }
+  \cup { [h |-> h, split |-> FALSE, decoy |-> FALSE] : h \in (IF tier = "quick" THEN { x \in Hier4(0) : x[1].ms = {"m1"} /\ x[4].ms = {} } ELSE Hier4(0)) }
 
 (* ---------- Appendix B.6 ---------- *)
 BasesOf(h, k) == { h[k].bases[j] : j \in 1..Len(h[k].bases) }
